@@ -265,6 +265,30 @@ class Setup:
             mon.v("miner-key-not-renewed", "miner keeps using the key that was just paid", w)
         world.cs = world.cs.add_block_no_validation(cand)
         world.accept(rb, cand, cs=world.cs)
+        # ... and it STAYS part of the served state: a peer pushing a rule-breaking block right afterwards (refused, with the
+        # node falling back to its last validated state) must not make the node forget the block it mined itself
+        if self.peers and self.rng.random() < 0.6:
+            from skv import cstream
+            try:
+                built = self.rng.choice([cstream.v_reward_plus_one, cstream.c_signed_by_other_key])(world, bid, self.rng)
+            except Exception:
+                built = None
+            if built is not None and ref.block_codes(world.chain, built[0], max(now, built[0].ts)):
+                bad = built[0]
+                self.net.clock.t = max(self.net.clock.t, bad.ts)
+                c["invalid_peer_blocks_after_found_block"] = c.get("invalid_peer_blocks_after_found_block", 0) + 1
+                r = self.rng.choice(self.peers)
+                r.push(self.wire.block(bridge.rblock_to_real(bad)))
+                self.net.settle(node)
+                served2 = cm.coinstate
+                if bad.id() in served2.block_by_hash:
+                    mon.v("invalid-peer-block-in-served-state", "a rule-breaking block pushed by a peer entered the served state", w)
+                if bid not in served2.block_by_hash or served2.current_chain_hash != bid:
+                    mon.v("found-block-dropped-from-served-state", "after a peer pushed a rule-breaking block (refused), the block the "
+                          "node had just mined (h=%d) is no longer %s the chain state it serves" % (
+                              rb.height, "part of" if bid not in served2.block_by_hash else "the head of"), w)
+                    return False
+                self.peers = [p for p in self.peers if not p.peer.closed] or self.peers
         if len(mon.samples) < 2:
             mon.samples.append({"height": rb.height, "transactions": len(rb.txs) - 1, "fees": fees,
                                 "reward": cb.outputs[0][0], "clock_minus_parent_ts": now - parent.ts})
@@ -343,6 +367,7 @@ def finalize(m, tier):
                    ("peers_checked_for_broadcast", c.get("peers_checked_for_broadcast", 0), 100),
                    ("clock_before_head_timestamp", c.get("clock_before_head_timestamp", 0), 10),
                    ("consecutive_found_blocks", c.get("consecutive_found_blocks", 0), 30),
-                   ("pool_additions_while_mining", c.get("pool_additions_while_mining", 0), 50)],
+                   ("pool_additions_while_mining", c.get("pool_additions_while_mining", 0), 50),
+                   ("invalid_peer_blocks_after_found_block", c.get("invalid_peer_blocks_after_found_block", 0), 40)],
         "extra": {},
     }
